@@ -79,6 +79,11 @@ def generate(seed, index, tier):
                     g[0], g[1] = g[-2], g[-1]
                 elif cmd["c"] in "lt" and ch.coin(0.3):
                     g[0], g[1] = "0", "0"
+    if index % 13 == 7:
+        # sizes beyond the usual handful: code that switches strategy at a length threshold
+        n_long = ch.int(25, 70)
+        long_draw = gp.gen_cmds(ch, n_long, mag=mag, leading_move=False, letters="LlHhVvLlQqTt", allow_zc=False, max_groups=2, arc_zero=False)
+        cmds = gp.gen_cmds(ch, 1, mag=mag, leading_move=True)[:1] + long_draw + ([{"c": "z", "g": [], "zc": 0}] if ch.coin(0.5) else []) + (cmds if ch.coin(0.5) else [])
     case = {"cmds": cmds, "style": ch.int(0, 63), "fragment": bool(index % 7 == 3), "mag": mag}
     has_arc = any(c["c"] in "Aa" for c in cmds)
     xfs = XF_SIM if has_arc else XF_ANY
